@@ -589,6 +589,18 @@ impl Context {
                 };
                 (format!("({stream}.inner() as {target})").into(), true)
             }
+            // a typedef'd target wraps the converted value, as it does for literals
+            (
+                _,
+                CodegenTy::Adt(AdtDef {
+                    did: target_did,
+                    kind: AdtKind::NewType(inner_ty),
+                }),
+            ) => {
+                let ident = self.cur_related_item_path(*target_did);
+                let (stream, is_const) = self.ident_into_ty(did, ident_ty, inner_ty);
+                (format!("{ident}({stream})").into(), is_const)
+            }
             _ => panic!("invalid convert {:?} to {:?}", ident_ty, target),
         }
     }
